@@ -130,6 +130,9 @@ func onceScenario(r *rand.Rand) (string, string, []string) {
 	late := r.Intn(4)      // callers arriving after completion
 	waitFor := r.Intn(early + 1)
 	errTyped := r.Intn(2) == 0 // instantiate the LAST result type with `error` (non-nil for most callers, nil for some)
+	panicky := r.Intn(5) == 0  // every supplied function panics after it started (sync.Once semantics: the call still counts, results stay zero)
+	nilLate := r.Intn(3) == 0  // some callers that arrive while the first invocation is running pass a nil function (it can never be invoked)
+	var started int32
 	rec := &recorder{}
 	release := make(chan struct{})
 	var called int32
@@ -151,16 +154,43 @@ func onceScenario(r *rand.Rand) (string, string, []string) {
 			return out
 		}
 		body := func() []int {
+			atomic.StoreInt32(&started, 1)
 			rec.log("fstart %d", t)
 			<-release
+			if panicky {
+				rec.log("fpanic %d", t)
+				panic("f panics")
+			}
 			v := res()
 			rec.log("fend %d %s", t, fmtInts(v))
 			return v
 		}
+		useNil := nilLate && t%2 == 1 && atomic.LoadInt32(&started) == 1 // only once somebody else is inside its function
 		rec.log("call %d", t)
 		atomic.AddInt32(&called, 1)
 		var got []int
+		defer func() {
+			if x := recover(); x != nil && x != "f panics" {
+				panic(x)
+			}
+		}()
 		switch {
+		case useNil && arity == 1 && !errTyped:
+			got = []int{o1.Do(nil)}
+		case useNil && arity == 2 && !errTyped:
+			a, b := o2.Do(nil)
+			got = []int{a, b}
+		case useNil && arity == 3 && !errTyped:
+			a, b, c := o3.Do(nil)
+			got = []int{a, b, c}
+		case useNil && arity == 1:
+			got = []int{fromErr(e1.Do(nil))}
+		case useNil && arity == 2:
+			a, b := e2.Do(nil)
+			got = []int{a, fromErr(b)}
+		case useNil:
+			a, b, c := e3.Do(nil)
+			got = []int{a, b, fromErr(c)}
 		case arity == 1 && !errTyped:
 			a := o1.Do(func() int { v := body(); return v[0] })
 			got = []int{a}
@@ -203,7 +233,7 @@ func onceScenario(r *rand.Rand) (string, string, []string) {
 	for t := early; t < early+late; t++ {
 		do(t)
 	}
-	return fmt.Sprintf("once %d", arity), fmt.Sprintf("once arity=%d early=%d late=%d waitFor=%d errTyped=%v", arity, early, late, waitFor, errTyped), rec.lines()
+	return fmt.Sprintf("once %d", arity), fmt.Sprintf("once arity=%d early=%d late=%d waitFor=%d errTyped=%v panicky=%v nilLate=%v", arity, early, late, waitFor, errTyped, panicky, nilLate), rec.lines()
 }
 
 // ---------------------------------------------------------------------------------------------- C18 AtomicValue
